@@ -116,7 +116,23 @@ func init() {
 					}
 					f = gen.M{"op": "and", "i": 0, "kids": kids}
 				}
-				res = append(res, gen.M{"drv": "bf", "k": k, "names": gen.Names(k), "hasF": true, "f": f, "ev": []gen.M{gen.Op("solve")}})
+				if r.Intn(6) == 0 { // a large group under and / or inside an equivalence
+					k = 5 + r.Intn(3)
+					grp := gen.M{"op": []string{"and", "or"}[r.Intn(2)], "i": 0, "kids": []gen.M{gen.UniqAll(r, k), gen.RandFormula(r, k, r.Intn(2), 1, 0, 0)}}
+					other := gen.RandFormula(r, k, r.Intn(2), 1, 0, 0)
+					f = gen.M{"op": []string{"eq", "xor", "imp"}[r.Intn(3)], "i": 0, "kids": []gen.M{other, grp}}
+					if r.Intn(2) == 0 {
+						f = gen.M{"op": f["op"], "i": 0, "kids": []gen.M{grp, other}}
+					}
+				}
+				ev := []gen.M{gen.Op("solve")}
+				if i%3 == 0 { // several calls on ONE formula value, also under a negation built around it
+					ev = nil
+					for j := 0; j < 2+r.Intn(2); j++ {
+						ev = append(ev, gen.M{"op": "solve", "neg": r.Intn(2) == 0})
+					}
+				}
+				res = append(res, gen.M{"drv": "bf", "k": k, "names": gen.Names(k), "hasF": true, "f": f, "ev": ev})
 			}
 			return res
 		},
@@ -163,7 +179,50 @@ func init() {
 				if k >= 7 && r.Intn(2) == 0 {
 					f = gen.M{"op": "and", "i": 0, "kids": []gen.M{gen.UniqAll(r, k), gen.RandFormula(r, k, 1, 1, 0, 0)}}
 				}
-				res = append(res, gen.M{"drv": "bf", "k": k, "names": gen.Names(k), "hasF": true, "f": f, "ev": []gen.M{gen.Op("dimacs")}})
+				if r.Intn(5) == 0 { // literals stated at the top level that come back inside nested disjunctions
+					// (absorption shapes: a translation that simplifies with known literals must keep its
+					// variable numbering straight), followed by parts over other variables
+					k = 4 + r.Intn(4)
+					lit := func() gen.M {
+						v := gen.M{"op": "v", "i": 1 + r.Intn(k), "kids": []gen.M{}}
+						if r.Intn(3) == 0 {
+							return gen.M{"op": "not", "i": 0, "kids": []gen.M{v}}
+						}
+						return v
+					}
+					var tops []gen.M
+					for j := 0; j < 1+r.Intn(2); j++ {
+						tops = append(tops, lit())
+					}
+					kids := append([]gen.M{}, tops...)
+					for j := 0; j < 1+r.Intn(3); j++ {
+						var ds []gen.M
+						for x := 0; x < 1+r.Intn(3); x++ {
+							switch r.Intn(3) {
+							case 0:
+								ds = append(ds, gen.M{"op": "and", "i": 0, "kids": []gen.M{lit(), lit()}})
+							case 1:
+								t := deepCopy(tops[r.Intn(len(tops))])
+								if r.Intn(3) == 0 {
+									t = gen.M{"op": "not", "i": 0, "kids": []gen.M{t}}
+								}
+								ds = append(ds, t)
+							default:
+								ds = append(ds, lit())
+							}
+						}
+						kids = append(kids, gen.M{"op": "or", "i": 0, "kids": ds})
+					}
+					if r.Intn(2) == 0 {
+						r.Shuffle(len(kids)-1, func(a, b int) { kids[a+1], kids[b+1] = kids[b+1], kids[a+1] })
+					}
+					f = gen.M{"op": "and", "i": 0, "kids": kids}
+				}
+				ev := []gen.M{gen.Op("dimacs")}
+				if i%4 == 0 { // several calls on one formula value
+					ev = []gen.M{{"op": "dimacs", "neg": r.Intn(2) == 0}, {"op": "dimacs", "neg": r.Intn(2) == 0}}
+				}
+				res = append(res, gen.M{"drv": "bf", "k": k, "names": gen.Names(k), "hasF": true, "f": f, "ev": ev})
 			}
 			return res
 		},
